@@ -708,8 +708,13 @@ class Interp:
                     fr2.cls = fr.cls
                     self.bind(n.generators[0].target, el, env2)
                     items.append((self.ex(n.key, fr2), self.ex(n.value, fr2)))
-                if all(known_value(k_) is not None for k_, _ in items) and len({known_value(k_) for k_, _ in items}) == len(items):
-                    return ('dict', tuple(items))
+                if all(known_value(k_) is not None for k_, _ in items):
+                    # a repeated key keeps its first position and takes the LAST value (Python's dict semantics)
+                    merged = {}
+                    for k_, v_ in items:
+                        kk = known_value(k_)
+                        merged[kk] = (merged[kk][0] if kk in merged else k_, v_)
+                    return ('dict', tuple(merged.values()))
         if isinstance(n, (ast.ListComp, ast.GeneratorExp, ast.SetComp)) and len(n.generators) == 1:
             dom0 = self.enum_members_of(self.ex(n.generators[0].iter, fr))
             if dom0[0] == 'const' and isinstance(dom0[1], str) and len(dom0[1]) <= 8:
